@@ -23,6 +23,9 @@
 #include <functional>
 #include <memory>
 #include <stdexcept>
+#if defined(__SANITIZE_ADDRESS__)
+#  include <sanitizer/common_interface_defs.h>
+#endif
 
 using namespace stir;
 typedef Array<1, int> A1;
@@ -138,16 +141,26 @@ run_exec(const char* opsfile, const char* outfile)
                 }
             }
           else if (op == "add")
-            *r[I(1)] += *r[I(2)];
+            {
+              if (!(small(*r[I(1)]) && small(*r[I(2)])))
+                res = "skip";
+              else
+                *r[I(1)] += *r[I(2)];
+            }
           else if (op == "badd")
             {
-              try
+              if (!(small(*r[I(1)]) && small(*r[I(2)])))
+                res = "skip";
+              else
                 {
-                  r[I(1)]->VectorWithOffset<int>::operator+=(*r[I(2)]);
-                }
-              catch (std::exception&)
-                {
-                  res = "err";
+                  try
+                    {
+                      r[I(1)]->VectorWithOffset<int>::operator+=(*r[I(2)]);
+                    }
+                  catch (std::exception&)
+                    {
+                      res = "err";
+                    }
                 }
             }
           else if (op == "sub" || op == "mul" || op == "div")
@@ -341,6 +354,15 @@ typedef std::vector<std::pair<std::vector<int>, int>> ElemList;
 typedef std::vector<std::pair<int, int>> Box;
 
 static long g_checks = 0; // number of oracle comparisons performed
+
+// the history that is being executed, printed when a sanitizer aborts the process
+static std::string g_current;
+static void
+on_sanitizer_death()
+{
+  std::fprintf(stderr, "\nABORTED-IN %s\n", g_current.c_str());
+  std::fflush(stderr);
+}
 
 template <int D>
 static void
@@ -916,6 +938,7 @@ nd_histories(vh::Rng& rng, int histories, int len, FILE* out, NdStats& st)
       for (int s = 0; s < len && !stop; ++s)
         {
           ++st.steps;
+          g_current = "dim=" + std::to_string(D) + " history: " + trace.str() + " <next step>";
           const int which = rng.range(0, 27);
           const Box box = random_box(rng, D);
           const ArOp aop = static_cast<ArOp>(rng.range(0, 3));
@@ -1533,6 +1556,7 @@ view_histories(vh::Rng& rng, int cases, FILE* out, NdStats& st)
       for (int s = 0; s <= nsteps && !stop; ++s)
         {
           ++st.steps;
+          g_current = "view dim=" + std::to_string(D) + " history: " + trace.str() + " <next step>";
           const char* opname = "view-construct";
           if (s > 0)
             {
@@ -1772,6 +1796,7 @@ view1d_checks(vh::Rng& rng, int cases, FILE* out, NdStats& st)
           break;
         }
       trace << names[ctor] << " n=" << n << " lo=" << vlo << "; ";
+      g_current = "1-D view: " + trace.str() + " <shrink / set_offset / resize beyond>";
       ++st.ops[std::string("view1d:") + names[ctor]];
       ++g_checks;
       std::string what;
@@ -2086,6 +2111,9 @@ main(int argc, char** argv)
       const int histories = std::atoi(argv[3]);
       const int len = std::atoi(argv[4]);
       FILE* out = std::fopen(argv[5], "w");
+#if defined(__SANITIZE_ADDRESS__)
+      __sanitizer_set_death_callback(on_sanitizer_death);
+#endif
       NdStats st;
       nd_histories<2>(rng, histories, len, out, st);
       nd_histories<3>(rng, histories / 2 + 1, len, out, st);
@@ -2098,6 +2126,7 @@ main(int argc, char** argv)
       empty_range_checks(rng, histories / 10 + 1, out, st);
       {
         long steps = 0;
+        g_current = "irregular 2-D arrays";
         const long f = irregular_checks(rng, histories, out, steps);
         st.steps += steps;
         st.fails += f;
